@@ -117,3 +117,151 @@ async fn registry_enum() {
 	);
 	assert!(failures.is_empty());
 }
+
+/// C01 / C06 bounded check on the real Tree: every open reader keeps reading exactly the state that was
+/// committed when it began (point gets, forward and backward range scans), and a fresh reader reads the
+/// current committed state, whatever memtable rotations, flushes and compaction rounds run in between.
+/// Bound (stated): programs of <= `maxlen` operations from {set k0|k1, delete k0|k1, rotate memtable
+/// (no flush), flush, compact, begin reader 0|1}, level_count 3; maxlen 3 (quick) / 4 (thorough).
+#[derive(Clone, Copy, Debug, PartialEq)]
+enum POp {
+	Set(u8),
+	Del(u8),
+	Rotate,
+	Flush,
+	Compact,
+	BeginR(usize),
+}
+
+fn scan(tx: &crate::Transaction, backward: bool) -> Vec<(Vec<u8>, Vec<u8>)> {
+	let mut it = tx.range(b"k".to_vec(), b"l".to_vec()).unwrap();
+	let mut out = Vec::new();
+	let mut ok = if backward { it.seek_last().unwrap() } else { it.seek_first().unwrap() };
+	while ok {
+		out.push((it.key().user_key().to_vec(), it.value().unwrap()));
+		ok = if backward { it.prev().unwrap() } else { it.next().unwrap() };
+	}
+	if backward {
+		out.reverse();
+	}
+	out
+}
+
+async fn reads_enum_impl(maxlen: usize, name: &str) {
+	use crate::compaction::leveled::Strategy;
+	let mut alpha = vec![POp::Rotate, POp::Flush, POp::Compact, POp::BeginR(0), POp::BeginR(1)];
+	for k in 0..2u8 {
+		alpha.push(POp::Set(k));
+		alpha.push(POp::Del(k));
+	}
+	let mut cases = 0u64;
+	let mut nontrivial = 0u64;
+	let mut failures: Vec<String> = Vec::new();
+	let mut samples: Vec<String> = Vec::new();
+	for len in 1..=maxlen {
+		for code in 0..alpha.len().pow(len as u32) {
+			let mut ops = Vec::new();
+			let mut x = code;
+			for _ in 0..len {
+				ops.push(alpha[x % alpha.len()]);
+				x /= alpha.len();
+			}
+			// only programs that begin each reader at most once and contain at least one reader
+			let nb0 = ops.iter().filter(|o| **o == POp::BeginR(0)).count();
+			let nb1 = ops.iter().filter(|o| **o == POp::BeginR(1)).count();
+			if nb0 > 1 || nb1 > 1 || nb0 + nb1 == 0 {
+				continue;
+			}
+			cases += 1;
+			let dir = tempdir::TempDir::new("verif_c01r").unwrap();
+			let (tree, opts) = TreeBuilder::new().with_path(dir.path().to_path_buf()).with_level_count(3).build_with_options().unwrap();
+			let mut o = (*opts).clone();
+			o.level0_max_files = 1;
+			let strat: Arc<dyn crate::compaction::CompactionStrategy> = Arc::new(Strategy::from_options(Arc::new(o)));
+			// committed state: key k0 present from the start
+			let mut model: [Option<Vec<u8>>; 2] = [Some(b"base".to_vec()), None];
+			{
+				let mut t = tree.begin().unwrap();
+				t.set(b"k0".to_vec(), b"base".to_vec()).unwrap();
+				t.commit().await.unwrap();
+			}
+			let mut readers: [Option<(crate::Transaction, [Option<Vec<u8>>; 2])>; 2] = [None, None];
+			let mut bad: Option<String> = None;
+			for (i, op) in ops.iter().enumerate() {
+				match *op {
+					POp::Set(k) => {
+						let v = format!("v{i}").into_bytes();
+						let mut t = tree.begin().unwrap();
+						t.set(vec![b'k', b'0' + k], v.clone()).unwrap();
+						t.commit().await.unwrap();
+						model[k as usize] = Some(v);
+					}
+					POp::Del(k) => {
+						let mut t = tree.begin().unwrap();
+						t.delete(vec![b'k', b'0' + k]).unwrap();
+						t.commit().await.unwrap();
+						model[k as usize] = None;
+					}
+					POp::Rotate => { let _ = tree.core.inner.rotate_memtable(); }
+					POp::Flush => { let _ = tree.flush(); }
+					POp::Compact => { let _ = tree.compact(strat.clone()); }
+					POp::BeginR(s) => readers[s] = Some((tree.begin().unwrap(), model.clone())),
+				}
+				// every open reader still reads its begin-time state; a fresh reader reads the current state
+				let fresh = tree.begin().unwrap();
+				let mut views: Vec<(&crate::Transaction, &[Option<Vec<u8>>; 2], String)> = vec![(&fresh, &model, "fresh reader".to_string())];
+				for (s, r) in readers.iter().enumerate() {
+					if let Some((tx, m)) = r {
+						views.push((tx, m, format!("reader {s}")));
+					}
+				}
+				for (tx, m, who) in views {
+					let want_scan: Vec<(Vec<u8>, Vec<u8>)> = (0..2u8).filter_map(|k| m[k as usize].clone().map(|v| (vec![b'k', b'0' + k], v))).collect();
+					for k in 0..2u8 {
+						let got = tx.get(vec![b'k', b'0' + k]).unwrap();
+						if got != m[k as usize] && bad.is_none() {
+							bad = Some(format!("after op {i} ({:?}): {who} get(k{k}) = {:?}, its snapshot holds {:?}", op, got, m[k as usize]));
+						}
+					}
+					for backward in [false, true] {
+						let got = scan(tx, backward);
+						if got != want_scan && bad.is_none() {
+							bad = Some(format!("after op {i} ({:?}): {who} {} scan = {:?}, its snapshot holds {:?}", op, if backward { "backward" } else { "forward" }, got, want_scan));
+						}
+					}
+				}
+			}
+			drop(readers);
+			let structural = ops.iter().filter(|o| matches!(o, POp::Rotate | POp::Flush | POp::Compact)).count();
+			let writes = ops.iter().filter(|o| matches!(o, POp::Set(_) | POp::Del(_))).count();
+			if structural >= 1 && writes >= 1 {
+				nontrivial += 1;
+				if samples.len() < 3 && len == maxlen {
+					samples.push(format!("\"{:?}\"", ops));
+				}
+			}
+			if let Some(b) = bad {
+				if failures.len() < 5 {
+					failures.push(format!("{{\"program\":\"{:?}\",\"mismatch\":{:?}}}", ops, b));
+				}
+			}
+			let _ = tree.close().await;
+		}
+	}
+	println!(
+		"REPLAY-RESULT {{\"driver\":\"snapshot::{name}\",\"cases\":{cases},\"distinct_nontrivial\":{nontrivial},\"samples\":[{}],\"failures\":[{}]}}",
+		samples.join(","),
+		failures.join(",")
+	);
+	assert!(failures.is_empty());
+}
+
+#[tokio::test(flavor = "multi_thread", worker_threads = 2)]
+async fn reads_enum_quick() {
+	reads_enum_impl(3, "reads_enum_quick").await;
+}
+
+#[tokio::test(flavor = "multi_thread", worker_threads = 2)]
+async fn reads_enum_thorough() {
+	reads_enum_impl(4, "reads_enum_thorough").await;
+}
